@@ -5,10 +5,10 @@
 (* action formulas, and the scenario emitter for `tlc -simulate` (B = 10^6).    *)
 EXTENDS MainChainGas, Json
 
-VARIABLES hist, nstep
-mcvars == <<notary, dep, gas, neo, wfee, cfee, cands, irN, ev, hist, nstep>>
+VARIABLES hist, nstep, rd
+mcvars == <<notary, dep, gas, neo, wfee, cfee, cands, irN, ballots, cur, ev, hist, nstep, rd>>
 
-CONSTANTS Notary, MaxSteps, SimLen, NStored, MC_NC, MC_Idx
+CONSTANTS Notary, MaxSteps, SimLen, NStored, MC_NC, MC_Idx, MC_Fund      \* MC_Fund: GAS held by NeoFS at the start
 
 FromL(a) == a[1] + B * a[2] + B * B * a[3]
 
@@ -17,6 +17,16 @@ Q_Unit    == L(2)
 Q_Users   == {"u1"}
 Q_Cands   == {"c1"}
 Q_KeyU    == {"k1", "k2"}
+Q_KeySeq  == <<"k1", "k2">>
+Q_FeeIds  == {"j1"}
+Q_AlphaIds == {"a1"}
+Q_Gaps1   == {1}
+Q_GapsV   == {1, 21}
+\* without Notary: the vote-collected methods interleaved (cheque, fee decision, list confirmation, candidate removal)
+V_Amounts == {L(1), L(6)}
+V_Wholes  == {3}
+V_SignerSets == {{"k1"}, {"k2"}, {"u1"}, {"c1"}}
+V_Acts    == {"cheque", "candRemove", "setFee", "alphaSame"}
 Q_IRSeq   == <<"r1", "r2", "r3">>
 Q_Amounts == {L(0), L(1), L(6), L(7)}
 Q_Wholes  == {-1, 0, 3, 4}
@@ -26,7 +36,8 @@ Q_SignerSets == {{}, {"u1"}, {"ALPHA"}, {"c1"}}
 Q_ActsFS  == {"deposit", "withdraw", "cheque", "candAdd", "candRemove", "setFee"}
 Q_ActsEm  == {"emit", "designate", "pay"}
 Q_SignerSetsEm == {{}, {"m0"}, {"m1"}, {"CMT"}}
-Q_AmountsEm == {L(1), L(7), L(53)}
+Q_AmountsEm == {L(7), L(53)}
+T_AmountsEm == {L(1), L(7), L(53)}
 Q_WholesEm == {0, 2}
 
 \* ---- simulation (B = 10^6) ----
@@ -34,47 +45,56 @@ G(whole, frac) == <<frac % B, (whole * 100 + frac \div B) % B, (whole * 100 + fr
 S_Unit    == <<0, 100, 0>>
 S_Users   == {"u1", "u2"}
 S_Cands   == {"c1", "c2"}
-S_KeyU    == {"k1", "k2", "k3"}
+S_KeyU    == {"k1", "k2", "k3", "k4"}
+S_KeySeq  == <<"k1", "k2", "k3", "k4">>
+S_FeeIds  == {"j1"}
+S_AlphaIds == {"a1"}
+S_Gaps    == {1, 2, 20, 21}
 S_IRSeq   == <<"r1", "r2", "r3", "r4", "r5", "r6", "r7">>
 S_Amounts == {Z, L(1), L(2), L(12345), G(1, 0), G(500, 0), G(8999, 99999999), G(9000, 0), G(9000, 1), G(9001, 0), G(20000, 0)}
 S_Wholes  == {-1, 0, 1, 100, 8999, 9000, 9001}
 S_Mints   == {Z}
 S_Ids     == {"i1", "i2"}
 S_SignerSets == {{}, {"u1"}, {"u2"}, {"ALPHA"}, {"CMT"}, {"STORED"}, {"c1"}, {"c2"}, {"m0"}, {"m1"}, {"m2"}, {"X"}}
-S_Acts    == {"deposit", "withdraw", "cheque", "candAdd", "candRemove", "setFee", "designate", "emit", "pay"}
+S_Acts    == {"deposit", "withdraw", "cheque", "candAdd", "candRemove", "setFee", "alphaSame", "designate", "emit", "pay"}
 
 InitWith(nt, sk, nc, ix, ug, cg, un, wf, cf) ==
   /\ notary = nt /\ dep = [skeys |-> sk, nc |-> nc, aidx |-> ix]
-  /\ gas = [a \in Acct |-> IF a \in Users THEN ug ELSE IF a \in Cands THEN cg ELSE Z]
+  /\ gas = [a \in Acct |-> IF a \in Users THEN ug ELSE IF a \in Cands THEN cg ELSE IF a = "neofs" THEN L(MC_Fund) ELSE Z]
   /\ neo = [a \in NeoAcct |-> IF a \in Users THEN un ELSE 0]
-  /\ wfee = wf /\ cfee = cf /\ cands = {} /\ irN = 0
-  /\ ev = Inv0("init", {}, Nil, Nil, Z, 0, Nil, Nil, NoMint)
+  /\ wfee = wf /\ cfee = cf /\ cands = {} /\ irN = 0 /\ ballots = <<>> /\ cur = 0
+  /\ ev = InvG("init", {}, Nil, Nil, Z, 0, Nil, Nil, 0, NoMint)
 
 KeysN(n) == {k \in KeyU : \E i \in 1..n : k = "k" \o ToString(i)}
 
-MCInit == InitWith(Notary, KeysN(NStored), MC_NC, MC_Idx, L(20), L(5), 3, L(1), L(2)) /\ hist = <<>> /\ nstep = 0
-Next == NextOf(LAMBDA X : X, LAMBDA X : X, LAMBDA S, h : S)
-MCNext == Next /\ hist' = <<>> /\ nstep' = nstep + 1
+MCInit == /\ InitWith(Notary, KeysN(NStored), MC_NC, MC_Idx, L(20), L(5), 3, L(1), L(2)) /\ hist = <<>> /\ nstep = 0 /\ rd = RdInit
+Fix(X) == IF X = {} THEN {} ELSE {CHOOSE x \in X : TRUE}
+Next == NextOf(LAMBDA X : X, LAMBDA X : X, LAMBDA S, h : S, Fix)
+MCNext == Next /\ hist' = <<>> /\ nstep' = nstep + 1 /\ rd' = RdNext(rd, ev')
 MCSpec == MCInit /\ [][MCNext]_mcvars
 
 One(X) == IF X = {} THEN {} ELSE {RandomElement(X)}
 S_Bias == <<{"ALPHA"}, {"ALPHA"}, {"u1"}, {"u2"}, {"u1"}, {"u2"}, {"c1"}, {"c2"}, {"m0"}, {"m1"}, {"CMT"}, {"CMT"}>>
 OneS(X) == IF RandomElement(1..4) = 1 THEN One(X) ELSE {S_Bias[RandomElement(1..Len(S_Bias))]}
-SimInit == /\ \E nt \in BOOLEAN, ns \in 1..3, nc \in {1, 3, 4}, ix \in 0..1 :
+SimInit == /\ \E nt \in BOOLEAN, ns \in 1..4, nc \in {1, 3, 4}, ix \in 0..1 :
                 InitWith(nt, KeysN(ns), nc, ix, G(100000, 0), G(100, 0), 1000, G(0, 1000000), G(1, 0))
-           /\ hist = <<>> /\ nstep = 0
-SimNext == NextOf(One, One, LAMBDA S, h : IF RandomElement(1..5) = 1 THEN S ELSE h) /\ nstep' = nstep + 1 /\ hist' = Append(hist, [ev' EXCEPT !.ntf = <<>>, !.mint = <<>>])
+           /\ hist = <<>> /\ nstep = 0 /\ rd = RdInit
+SimNext == NextOf(One, One, LAMBDA S, h : IF RandomElement(1..6) = 1 THEN S ELSE h, One) /\ nstep' = nstep + 1 /\ rd' = RdNext(rd, ev')
+           /\ hist' = Append(hist, [ev' EXCEPT !.ntf = <<>>, !.mint = <<>>])
 SimSpec == SimInit /\ [][SimNext]_mcvars
 
 Bounded == nstep <= MaxSteps
-MCView == <<notary, dep, gas, neo, wfee, cfee, cands, irN, nstep>>
+\* block heights are viewed relative to cur, capped above the window
+Age(h) == IF cur - h > Window THEN Window + 1 ELSE cur - h
+MCView == <<notary, dep, gas, neo, wfee, cfee, cands, irN, [i \in 1..Len(ballots) |-> [ballots[i] EXCEPT !.h = Age(@)]],
+            [i \in AllIds |-> IF rd[i].vs = {} THEN RdEmpty ELSE [rd[i] EXCEPT !.last = Age(@)]], nstep>>
 
 EmitScenario ==
   IF Len(hist) = SimLen
   THEN PrintT("SCEN " \o ToJson([notary |-> notary, ns |-> Cardinality(dep.skeys), nc |-> dep.nc, idx |-> dep.aidx, steps |-> hist]))
   ELSE TRUE
 
-P_C19 == [][/\ C19_Deposit(ev') /\ C19_WithdrawFee(ev') /\ C19_ChequePays(ev') /\ C19_CandidateFee(ev')
+P_C19 == [][/\ C19_Deposit(ev') /\ C19_WithdrawFee(ev') /\ C19_ChequePays(rd, ev') /\ C19_ChequeAccepted(ev') /\ C19_CandidateFee(ev')
             /\ C19_Conservation(ev') /\ C19_EmitOnlyOwnNode(ev') /\ C19_EmitSplit(ev') /\ C19_OnlyGAS(ev')
             /\ C19_NoOtherMoves(ev')]_mcvars
 
@@ -83,6 +103,14 @@ Total(F) == LET RECURSIVE T(_)
                 T(D) == IF D = {} THEN 0 ELSE LET a == CHOOSE x \in D : TRUE IN FromL(F[a]) + T(D \ {a})
             IN  T(Acct)
 P_NoGasLost == [][Total(gas') = Total(gas) + (IF ev'.res = "HALT" /\ ev'.ret # "false" THEN Total(ev'.mint) ELSE 0)]_mcvars
+
+\* the stored ballots and the abstract rounds agree (refinement witness for the vote-collected cheque)
+Inv_Refines ==
+  \A id \in AllIds :
+     LET LB == Live(ballots, cur)  i == IdxOf(LB, id)
+     IN  IF rd[id].vs = {} \/ cur - rd[id].last > Window THEN i = 0
+         ELSE i # 0 /\ Ran(LB[i].voters) = rd[id].vs /\ LB[i].h = rd[id].last
+Inv_OneBallotPerId == \A i, j \in 1..Len(ballots) : ballots[i].id = ballots[j].id => i = j
 
 TypeOK == \A a \in Acct : /\ gas[a][1] \in 0..(B - 1) /\ gas[a][2] \in 0..(B - 1) /\ gas[a][3] >= 0
 
